@@ -250,6 +250,7 @@ def finding_programs():
         P.append(("fnd-" + name, text))
     add("char", "root packet P {\n    char c,\n    u8 x,\n}\n")
     add("rchar", "root packet P {\n    repeat char cs,\n    u8 x,\n}\n")
+    add("rchar-le", "options {\n    LittleEndian = true;\n}\nroot packet P {\n    repeat char cs,\n    u8 x,\n}\n")
     add("objname", "packet Inner {\n    u8 a,\n}\nroot packet P {\n    Inner ref_obj,\n    u8 x,\n}\n")
     add("objlist", "packet Inner {\n    u8 a,\n}\nroot packet P {\n    repeat Inner items,\n    u8 x,\n}\n")
     add("lower-inline", "root packet P {\n    hdr {\n        u8 a,\n    },\n    u8 x,\n}\n")
